@@ -400,6 +400,7 @@ func checkC05(c *Ctx) {
 	checkC05Errors(c, eff)
 	checkC05LoopError(c)
 	checkC05ErrOverwrite(c)
+	checkC05NestedUnconditional(c)
 	// "the implicit transaction is always finished": CommitOrRollbackTransaction finishes through (*DB).Commit/Rollback,
 	// which must reach the pool on every path (same rule as C04.forward)
 	checkTxForward(c, c.Rule("C05.finish-forward", "the Commit/Rollback that finish an implicit transaction reach the pool's Commit/Rollback (or report ErrInvalidTransaction) on every path", 6))
